@@ -1,5 +1,6 @@
 //! mc <Cxx> [--tier quick|thorough] [--replay <file>]
 mod alloc;
+mod choppy;
 mod e2;
 mod gen;
 mod props;
